@@ -587,7 +587,9 @@ def register_astnode(R):
 
 # ===========================================================================
 # Part 3: the Lexer on concrete short inputs (EFFECTIVELY BOUNDED: concrete strings, run through the same interpreter)
-# expected = (TokenType name, value, unread rest incl. the look-ahead char) | "ValueError" | "StopIteration"
+# expected = (TokenType name, value, unread rest incl. the look-ahead char) | "MALFORMED" | "StopIteration"
+# MALFORMED = a word that starts like a number but is not one: it must never come back as a FLOAT token (the lexer may raise
+# ValueError or hand it on as a non-number token; _parse_node, proved to accept exactly four FLOAT tokens, then rejects the point)
 # written by hand from the format: blanks separate words, each of ( ) | is a word of its own, ';' starts a comment up to the end of
 # the line, a word that starts like a number must BE a number (float(word) of the whole word) -- otherwise the point is malformed.
 LEX_CASES = {
@@ -596,10 +598,13 @@ LEX_CASES = {
     "exponent-after-tab": ("\t1e3\n", ("FLOAT", 1000.0, "\n")),
     "signed-fraction-exponent-before-bar": ("+.5e-1|", ("FLOAT", 0.05, "|")),
     "number-glued-to-open": ("1(", ("FLOAT", 1.0, "(")),
-    "decimal-comma": ("3,5 ", "ValueError"),
-    "unit-suffix": ("3.5mm ", "ValueError"),
-    "two-dots": ("1.2.3)", "ValueError"),
-    "dangling-exponent": ("1e ", "ValueError"),
+    "decimal-comma": ("3,5 ", "MALFORMED"),
+    "unit-suffix": ("3.5mm ", "MALFORMED"),
+    "two-dots": ("1.2.3)", "MALFORMED"),
+    "dangling-exponent": ("1e ", "MALFORMED"),
+    "underscore-between-digits(float()-accepts-it)": ("1_0 ", "MALFORMED"),
+    "non-ascii-digit(float()-accepts-it)": ("1\u0663 ", "MALFORMED"),
+    "trailing-dot-is-a-number": ("1. ", ("FLOAT", 1.0, " ")),
     "open": ("(1", ("BRACKET_LEFT", "(", "1")),
     "close": (") ", ("BRACKET_RIGHT", ")", " ")),
     "bar": ("|(", ("OR", "|", "(")),
@@ -650,17 +655,20 @@ def register_lexer(R):
         from swcgeom.transforms.neurolucida_asc import TokenType
 
         ex, tok = expect(E), v["result"]
+        if ex == "MALFORMED":  # not a number: whatever token comes back, it is not a FLOAT (and it is the whole word, checked by the cursor clause)
+            return isinstance(tok, Obj) and tok.fields["type"] is not TokenType.FLOAT
         if not isinstance(ex, tuple) or not isinstance(tok, Obj):
-            return False  # a malformed number / the end of input must not yield a token
+            return False  # the end of input must not yield a token
         val = tok.fields["value"]
         same_val = (val == ex[1]) if isinstance(ex[1], str) else (not isinstance(val, str) and Fraction(val) == Fraction(repr(ex[1])))
         return tok.fields["type"] is TokenType[ex[0]] and same_val
 
     R.add(LEX + "__next__", prop="C15", variants={k: lexer_setup(t) for k, (t, _) in LEX_CASES.items()},
-          raises={"ValueError": ("only-for-a-word-with-a-numeric-prefix-that-is-not-a-number", lambda E, v, o: expect(E) == "ValueError"),
+          raises={"ValueError": ("only-for-a-word-with-a-numeric-prefix-that-is-not-a-number", lambda E, v, o: expect(E) == "MALFORMED"),
                   "StopIteration": ("only-at-the-end-of-input", lambda E, v, o: expect(E) == "StopIteration")},
           ensures=[("token-type-and-value-of-the-WHOLE-word", token_ok),
-                   ("cursor-just-after-the-token", lambda E, v, o: isinstance(expect(E), tuple) and unread(E, v) == expect(E)[2])],
+                   ("cursor-just-after-the-token", lambda E, v, o: (isinstance(expect(E), tuple) and unread(E, v) == expect(E)[2])
+                    or (expect(E) == "MALFORMED" and unread(E, v) == LEX_CASES[E.variant][0][len(LEX_CASES[E.variant][0].split()[0].rstrip(")")):]))],
           notes="EFFECTIVELY BOUNDED: 19 concrete inputs (numbers, malformed numbers, brackets, bar, comments, literals, end of input); "
                 "regex matching and float() run natively on the concrete word")
 
